@@ -38,7 +38,7 @@ JB_KEY = b"jwt-bearer-shared-secret-0123456789abcdef"
 
 
 class World:
-    def __init__(self, model=None):
+    def __init__(self, model=None, transport="neutral"):
         self.model = model
         self.clock = Clock()
         self.real_time = time.time
@@ -56,7 +56,7 @@ class World:
         }
         st.clients["pub"] = S.Client("pub", "", ["https://pub.example/cb"], "a b", ["implicit", "authorization_code", "refresh_token"], ["token", "code"], "none")
         users = {"alice": "pw"}
-        srv = self.srv = S.Server(st)
+        srv = self.srv = S.Server(st, transport=transport)     # framework-free, or behind the Flask / Django glue
         gs = S.make_grants(st, users)
 
         class CodeGrant(gs["code"]):
